@@ -130,6 +130,8 @@ fn programs(c: &Caps, mem: &str, n: u64) -> Vec<(&'static str, String, Option<u6
                 v.push(("org+nop", format!("{}.org {}\nnop\n", dev, n - 1), None));
             }
             v.push(("dw-blocks", format!("{}{}", dev, dw_block(n)), None));
+            // the counter is only moved there, nothing is placed: capacity is a legal position
+            v.push(("position-only:org+label", format!("{}.org {}\nend_of_flash_l:\n", dev, n), None));
             if let Some(i2) = c.two_word {
                 if n >= 2 {
                     v.push(("two-word-instruction-at-end", format!("{}.org {}\n{}\n", dev, n - 2, i2), None));
@@ -165,6 +167,7 @@ fn programs(c: &Caps, mem: &str, n: u64) -> Vec<(&'static str, String, Option<u6
         "eeprom" => {
             if n >= 1 {
                 v.push(("org+db", format!("{}.eseg\n.org {}\n.db 1\n", dev, n - 1), None));
+                v.push(("position-only:org+label", format!("{}.eseg\n.org {}\nend_of_eeprom_l:\n", dev, n), None));
                 v.push(("byte", format!("{}.eseg\n.byte {}\n", dev, n), None));
                 let mut s = format!("{}.eseg\n{}", dev, dw_block(n / 2));
                 if n % 2 == 1 {
@@ -178,6 +181,7 @@ fn programs(c: &Caps, mem: &str, n: u64) -> Vec<(&'static str, String, Option<u6
         _ => {
             if n >= 1 {
                 v.push(("byte", format!("{}.dseg\n.byte {}\n", dev, n), Some(n)));
+                v.push(("position-only:org+label", format!("{}.dseg\n.org {}\nstack_top_l:\n.cseg\nnop\n", dev, c.ram_start + n), None));
                 v.push(("org+byte", format!("{}.dseg\n.org {}\n.byte 1\n", dev, c.ram_start + n - 1), Some(n)));
             } else {
                 v.push(("empty", format!("{}.dseg\nv:\n", dev), Some(0)));
@@ -266,6 +270,12 @@ pub fn run(tier: Tier) -> i32 {
                     let rest = &src[plain.len()..];
                     progs.push((format!("{}+device-in-macro", way), format!(".macro board_setup\n.device {}\n.endm\nboard_setup\n{}", name, rest), ramf));
                     progs.push((format!("{}+device-in-conditional", way), format!(".if 1\n.device {}\n.else\n.device ATmega2560\n.endif\n{}", name, rest), ramf));
+                    // .csegsize repartitions the AT94K only: before or after the .device line of any
+                    // other part it changes nothing
+                    if name != "AT94K" && rest.len() < 100_000 {
+                        progs.push((format!("{}+csegsize-before-device", way), format!(".csegsize {}\n{}{}", [10, 12, 14, 16][n as usize % 4], plain, rest), ramf));
+                        progs.push((format!("{}+csegsize-after-device", way), format!("{}.csegsize {}\n{}", plain, [16, 10, 12, 14][n as usize % 4], rest), ramf));
+                    }
                 }
             }
             progs.push((way.to_string(), src, ramf));
@@ -284,7 +294,9 @@ pub fn run(tier: Tier) -> i32 {
                         "eeprom" => b.eeprom.len() as u64,
                         _ => b.ram_filling as u64,
                     };
-                    if used != n {
+                    if way.starts_with("position-only:") {
+                        // nothing is placed: what the images / ram_filling show for an empty tail is not pinned
+                    } else if used != n {
                         bad = Some(("wrong-usage", format!("the program uses {} units of {} but the result shows {}", n, mem, used)));
                     } else if let Some(r) = ramf {
                         if b.ram_filling as u64 != r {
